@@ -145,7 +145,10 @@ package printer
 //@   ensures[C18] sep-unchanged: heapfield("ast.AndOrList.Sep") == old(heapfield("ast.AndOrList.Sep"))
 //@   ensures[C18] writer-failure-reported: failed(p.w) ==> err != nil
 
+// A negative Width (bytes.Repeat would panic) is outside the configuration
+// space: it is the caller's obligation.
 //@ func (*Config).Fprint
+//@   requires c.Width >= 0
 //@   preserves[C18] F.ast.AndOrList.Pipeline F.ast.AndOrList.List F.ast.AndOrList.SepPos F.ast.Pipeline.* F.ast.Cmd.* F.ast.AndOr.* F.ast.Pipe.* F.ast.SimpleCmd.* F.ast.Subshell.* F.ast.Group.* F.ast.ArithEval.* F.ast.ForClause.* F.ast.CaseClause.* F.ast.CaseItem.* F.ast.IfClause.* F.ast.ElifClause.* F.ast.ElseClause.* F.ast.WhileClause.* F.ast.UntilClause.* F.ast.FuncDef.* F.ast.Assign.* F.ast.Redir.* F.ast.Lit.* F.ast.Quote.* F.ast.ParamExp.* F.ast.CmdSubst.* F.ast.ArithExp.* F.ast.Comment.*
 //@   preserves[C18] region field:ast.* unboxed:ast.* ext:Fprint.n
 //@   deterministic[C18]
